@@ -442,6 +442,14 @@ def mergeWith (x o : XSketch) : Option (Except SkErr XSketch) :=
   | some (.error e) => some (.error e)
   | some (.ok sk) => some (.ok { sk := sk, st := x.st.mergeWith o.st })
 
+/-- `x.MergeWith(x)` (the argument is the receiver): the stores and the zero count double; the
+    statistics follow `Summary.mergeWithSelf` -/
+def mergeWithSelf (x : XSketch) : Option (Except SkErr XSketch) :=
+  match x.sk.mergeWith x.sk with
+  | none => none
+  | some (.error e) => some (.error e)
+  | some (.ok sk) => some (.ok { sk := sk, st := x.st.mergeWithSelf })
+
 def clear (x : XSketch) : XSketch := { sk := x.sk.clear, st := Summary.new }
 
 def reweight (x : XSketch) (w : F64) : Option (Except SkErr XSketch) :=
